@@ -242,3 +242,118 @@ def check_fitter_dict(values, readout_gates, m, N, qubits, tag, full):
     if extra:
         problems.append(f"unexpected keys {[P.to_label(klen, k + (0,), False) for k in list(extra)[:3]]}")
     return problems
+
+
+# ---------------------------------------------------------------------------------------------------------------------------------
+# Concrete count data.  The symbolic run above has every outcome key present with a generic value; real results OMIT outcomes that never
+# occurred and may be deterministic.  The same value contract is therefore also evaluated on concrete sparse / dense count dictionaries
+# (GROUND), and it is the fallback when the code under contract does not treat counts as opaque numbers (e.g. hands them to numpy).
+
+def key_of(b, N, spaced=False):
+    s = format(b, f"0{N}b")
+    return s[:1] + " " + s[1:] if spaced and N > 2 else s
+
+
+def concrete_sets(N, ncirc, rnd, all_deltas, spaced_odd=False, light=False):
+    """[(tag, [counts dict per circuit])]: single-outcome (deterministic) results, two-outcome results, dense integer counts, dense float probabilities"""
+    size = 1 << N
+    sets = []
+    if all_deltas:
+        bs = list(range(size))
+    elif light:
+        bs = list(dict.fromkeys([0, size - 1, rnd.randrange(1, size)]))
+    else:
+        bs = list(dict.fromkeys([0, 1, size - 1, size >> 1] + [rnd.randrange(size) for _ in range(4)]))
+    for b in bs:
+        sets.append((f"deterministic outcome {b:0{N}b} (shifted by the circuit index)",
+                     [{key_of((b + 5 * j) % size, N, spaced_odd and j % 2 == 1): 1000} for j in range(ncirc)]))
+    for _ in range(1 if light else 2):
+        cs = []
+        for j in range(ncirc):
+            b1, b2 = rnd.randrange(size), rnd.randrange(size)
+            d = {key_of(b1, N, spaced_odd and j % 2 == 1): 3}
+            d[key_of(b2, N, spaced_odd and j % 2 == 1)] = d.get(key_of(b2, N, spaced_odd and j % 2 == 1), 0) + 1
+            cs.append(d)
+        sets.append(("two-outcome results", cs))
+    sets.append(("dense integer counts", [{key_of(b, N, spaced_odd and j % 2 == 1): rnd.randrange(1, 60) for b in range(size)} for j in range(ncirc)]))
+    fl = []
+    for j in range(ncirc):
+        w = [rnd.random() for _ in range(size)]
+        t = sum(w)
+        fl.append({key_of(b, N, spaced_odd and j % 2 == 1): w[b] / t for b in range(size)})
+    sets.append(("dense float probabilities", fl))
+    return sets
+
+
+def dense_concrete(N, ncirc, rnd, spaced_odd=False):
+    return [{key_of(b, N, spaced_odd and j % 2 == 1): rnd.randrange(1, 60) for b in range(1 << N)} for j in range(ncirc)]
+
+
+def expected_concrete(readout_gates, m, N, qubits, counts, full):
+    """{(x, z): value} of the contract  sigma * sum_b (-1)^{s.b|q} c_b / sum_b c_b  for all s != 0, key layout as in check_fitter_dict"""
+    inv = P.inverse_gates(readout_gates)
+    parsed = [(int(k.replace(" ", ""), 2), c) for k, c in counts.items()]
+    tot = sum(c for _, c in parsed)
+    if qubits is not None:
+        parsed = [(sum(((b >> q) & 1) << k for k, q in enumerate(qubits)), c) for b, c in parsed]
+    out = {}
+    for s in range(1, 1 << m):
+        x, z, sg = P.conj_circuit((0, s, 0), inv)
+        acc = 0
+        for r, c in parsed:
+            acc += -c if P.popcount(s & r) & 1 else c
+        if qubits is not None and full:
+            X = Z = 0
+            for k, q in enumerate(qubits):
+                X |= ((x >> k) & 1) << q
+                Z |= ((z >> k) & 1) << q
+            x, z = X, Z
+        out[(x, z)] = (-acc if sg else acc) / tot
+    return out
+
+
+def check_concrete(values, specs, counts_list, N):
+    """values: dict returned by the real fitter on concrete counts; specs: per circuit (readout_gates, m, qubits, full). Returns problems."""
+    want = {}
+    klen = None
+    for (ro, m, qubits, full), counts in zip(specs, counts_list):
+        want.update(expected_concrete(ro, m, N, qubits, counts, full))
+        klen = N if (qubits is not None and full) else m
+    problems, got = [], {}
+    for pk, v in values.items():
+        x, z, ph = pauli_to_xz(pk)
+        if len(pk) != klen:
+            problems.append(f"key {pk} has {len(pk)} qubits, expected {klen}")
+            continue
+        if ph != 0:
+            problems.append(f"key {pk} carries a phase")
+        got[(x, z)] = v
+    if (0, 0) not in got or abs(got[(0, 0)] - 1) > 1e-12:
+        problems.append(f"identity entry missing or != 1 ({got.get((0, 0))!r})")
+    if len(values) != len(want) + 1:
+        problems.append(f"{len(values)} entries, expected {len(want) + 1}")
+    for k, w in want.items():
+        v = got.get(k)
+        if v is None:
+            problems.append(f"Pauli {P.to_label(klen, k + (0,), False)} missing")
+        elif abs(complex(v) - w) > 1e-9:
+            problems.append(f"value for {P.to_label(klen, k + (0,), False)} is {v!r}, contract {w!r}" + (" (wrong SIGN)" if abs(complex(v) + w) < 1e-9 else ""))
+        if len(problems) > 4:
+            break
+    return problems
+
+
+def symbolic_or_withdraw(symbolic_fn, concrete_fn):
+    """symbolic_fn() runs the real code on symbolic counts and returns a list of problems.  If the code cannot be executed on them (it branches on a count,
+    or passes the counts to numpy/float - any exception), the SAME call is repeated on dense concrete counts by concrete_fn():
+        it raises there too  -> (False, [...])  a genuine failure with a concrete input
+        it runs              -> (None, [...])   the symbolic (all-distributions) argument is withdrawn: UNDECIDED, never a violation"""
+    try:
+        return (lambda p: (not p, p))(symbolic_fn())
+    except Exception as e:          # includes SymbolicBranch
+        why = f"{type(e).__name__}: {e}"
+    try:
+        concrete_fn()
+    except Exception as e2:
+        return False, [f"fitter raised {type(e2).__name__}: {e2} on dense concrete counts (and {why} on symbolic counts)"]
+    return None, [f"the code does not treat counts as opaque numbers ({why}); the all-distributions argument by symbolic counts is withdrawn"]
